@@ -58,23 +58,24 @@ pub fn def_same(a: &AbiTraitDefinition, b: &AbiTraitDefinition) -> bool {
     }
     true
 }
+pub fn enum_same(x: &SchemaEnum, y: &SchemaEnum) -> bool {
+    if !str_same(&x.dbg_name, &y.dbg_name) || x.discriminant_size != y.discriminant_size || enum_layout(x) != enum_layout(y) || x.variants.len() != y.variants.len() {
+        return false;
+    }
+    let mut i = 0;
+    while i < x.variants.len() {
+        let (v, w) = (&x.variants[i], &y.variants[i]);
+        if !str_same(&v.name, &w.name) || v.discriminant != w.discriminant || !fields_same(&v.fields, &w.fields) {
+            return false;
+        }
+        i += 1;
+    }
+    true
+}
 pub fn schema_same(a: &Schema, b: &Schema) -> bool {
     match (a, b) {
         (Schema::Struct(x), Schema::Struct(y)) => str_same(&x.dbg_name, &y.dbg_name) && struct_layout(x) == struct_layout(y) && fields_same(&x.fields, &y.fields),
-        (Schema::Enum(x), Schema::Enum(y)) => {
-            if !str_same(&x.dbg_name, &y.dbg_name) || x.discriminant_size != y.discriminant_size || enum_layout(x) != enum_layout(y) || x.variants.len() != y.variants.len() {
-                return false;
-            }
-            let mut i = 0;
-            while i < x.variants.len() {
-                let (v, w) = (&x.variants[i], &y.variants[i]);
-                if !str_same(&v.name, &w.name) || v.discriminant != w.discriminant || !fields_same(&v.fields, &w.fields) {
-                    return false;
-                }
-                i += 1;
-            }
-            true
-        }
+        (Schema::Enum(x), Schema::Enum(y)) => enum_same(x, y),
         (Schema::Primitive(x), Schema::Primitive(y)) => x == y,
         (Schema::Vector(x, lx), Schema::Vector(y, ly)) => lx == ly && schema_same(x, y),
         (Schema::Array(x), Schema::Array(y)) => x.count == y.count && schema_same(&x.item_type, &y.item_type),
